@@ -6,7 +6,7 @@ wt=/tmp/seed_wt_$$
 git -C /repo worktree add -q $wt HEAD || exit 2
 cp -r /repo/pywhy_graphs.egg-info $wt/ 2>/dev/null
 git -C $wt apply -3 --whitespace=nowarn "$patch" || { echo "patch does not apply"; git -C /repo worktree remove --force $wt; exit 2; }
-cd /verif && VERIF_REPO=$wt VERIF_JOBS=${VERIF_JOBS:-8} ./check $prop --tier $tier 2>&1 | grep -v '^WARNING conda' | tail -6
+cd /verif && VERIF_EVIDENCE_DIR=/tmp/seed_evidence VERIF_REPO=$wt VERIF_JOBS=${VERIF_JOBS:-8} ./check $prop --tier $tier 2>&1 | grep -v '^WARNING conda' | tail -6
 rc=${PIPESTATUS[0]}
 git -C /repo worktree remove --force $wt
 echo "seeded_test exit=$rc"
